@@ -2,7 +2,7 @@
 \* (CPosted) or the code's own assert fires (CNoPanic). Used by the self-test only.
 SPECIFICATION CSpec
 CONSTANTS
-  Variant = "fixed"
+  Variant = "catchup"
   E = 0
   VPerO = 1
   MaxZ = 4
